@@ -193,7 +193,8 @@ def run_session(cfg, csv_path, symbols, data_source=None, probe_signals=False, h
     if acfg['kind'] in ('topn', 'sma', 'invvol') or cfg.get('signals'):
         for name, lbs in (cfg.get('signals') or {}).items():
             cls = {'momentum': q.MomentumSignal, 'sma': q.SMASignal, 'vol': q.VolatilitySignal}[name]
-            sig[name] = cls(start, sig_universe, list(lbs))
+            # (a signal may be declared with a later start of its own: it is fed from the session's first close all the same)
+            sig[name] = cls(cal.ts6(cfg['signal_start']) if cfg.get('signal_start') else start, sig_universe, list(lbs))
         if acfg['kind'] == 'topn' and 'momentum' not in sig:
             sig['momentum'] = q.MomentumSignal(start, universe, [acfg['lookback']])
         if acfg['kind'] == 'sma' and 'sma' not in sig:
@@ -264,7 +265,8 @@ def run_session(cfg, csv_path, symbols, data_source=None, probe_signals=False, h
         bt = q.BacktestTradingSession(
             start, end, universe, alpha, signals=signals, initial_cash=cfg['cash'], rebalance=cfg['rebalance'],
             long_only=cfg['long_only'], fee_model=kit.fee_model(cfg['fee']),
-            burn_in_dt=None if cfg.get('burn_in') is None else cal.ts6(cfg['burn_in']),
+            burn_in_dt=None if cfg.get('burn_in') is None else (
+                cal.ts6(cfg['burn_in']).tz_convert(cfg['burn_in_tz']) if cfg.get('burn_in_tz') else cal.ts6(cfg['burn_in'])),
             data_handler=None if own_handler else dh, **kw)     # own_handler: the session builds its handler itself
     except Exception as e:                                       # noqa
         # a configuration the session refuses to build: reported like a failure at the start instant
